@@ -22,6 +22,20 @@ class CallMixin:
             self.call_ord[id(x)] = counts.get(k, 0)
             counts[k] = counts.get(k, 0) + 1
         self.callee_keys = set(counts)
+        # every name bound somewhere in the function (parameters, assignment / loop / with / comprehension / except targets, nested defs)
+        names = set()
+        for x in ast.walk(fn):
+            if isinstance(x, ast.Name) and isinstance(x.ctx, (ast.Store, ast.Del)):
+                names.add(x.id)
+            elif isinstance(x, ast.arg):
+                names.add(x.arg)
+            elif isinstance(x, (ast.FunctionDef, ast.AsyncFunctionDef, ast.ClassDef)):
+                names.add(x.name)
+            elif isinstance(x, ast.ExceptHandler) and x.name:
+                names.add(x.name)
+            elif isinstance(x, (ast.Import, ast.ImportFrom)):
+                names.update((a.asname or a.name).split(".")[0] for a in x.names)
+        self.fn_names = names
         comps = [x for x in ast.walk(fn) if isinstance(x, (ast.ListComp, ast.SetComp, ast.DictComp, ast.GeneratorExp))]
         comps.sort(key=lambda x: (x.lineno, x.col_offset))
         self.comp_ord = {id(x): i for i, x in enumerate(comps)}
@@ -152,7 +166,24 @@ class CallMixin:
             if src.startswith(pat):
                 r = h(self, n, st, old)
                 if r is not NotImplemented:
+                    self.lib_used.setdefault(self.cur, set()).add(pat)
                     return r
+        # a library pattern whose receiver root is a local of the function that has since been renamed: `scheduler.backend.f(` against
+        # `sched.backend.f(`.  Only when the pattern's root name is bound nowhere in this function any more and exactly one pattern fits.
+        if "." in src.split("(")[0]:
+            root, _, rest = src.partition(".")
+            if root.isidentifier() and root != "self":
+                fits = []
+                for pat, h in libs:
+                    proot, _, prest = pat.partition(".")
+                    if prest and proot.isidentifier() and proot not in ("self",) and proot != root and proot not in self.fn_names and rest.startswith(prest):
+                        fits.append((pat, h))
+                if len(fits) == 1:
+                    r = fits[0][1](self, n, st, old)
+                    if r is not NotImplemented:
+                        self.lib_used.setdefault(self.cur, set()).add(fits[0][0])
+                        self.note("renamed-receiver", f"{fits[0][0]} applied to {src[:40]}", n.lineno)
+                        return r
         for pat in self.m.skip_calls:
             if src.startswith(pat):
                 self.note("A-LOG", pat, n.lineno)
@@ -220,6 +251,10 @@ class CallMixin:
             return self.truth(self.ev(parse_expr(e) if isinstance(e, str) else e, st, old))
         except (KeyError, AttributeError, IndexError, TypeError, NeedFork) as ex:
             self.note("spec-error", f"{str(e)[:60]}: {type(ex).__name__} {ex}", getattr(self, "cur_line", 0))
+            # an invariant or call-site condition that no longer evaluates is also missing as a hypothesis of later obligations of this function
+            why = f"a contract expression does not evaluate on this code ({type(ex).__name__}: {str(ex)[:80]})"
+            if why not in self.out_of_sync.setdefault(self.cur, []):
+                self.out_of_sync[self.cur].append(why)
             return T(BOOL, "SPEC-ERROR")
         finally:
             self.nofork -= 1
